@@ -97,7 +97,7 @@ func runC12(src sim.Source, o Opts) *Result {
 		}
 		set.Insert(world.ModelRoute(cfg, r.Method, p, i+1, world.RouteOpt{}))
 	}
-	shapes := []string{"direct", "direct", "tsr", "redirect-or-ignore", "notfound", "nomethod", "options", "lookup", "lookup-noclose", "clonewith", "clone", "clone"}
+	shapes := []string{"lookup-clone", "direct", "direct", "tsr", "redirect-or-ignore", "notfound", "nomethod", "options", "lookup", "lookup-noclose", "clonewith", "clone", "clone"}
 	type reqPlan struct {
 		Shape  string
 		Route  int
@@ -234,7 +234,7 @@ func runC12(src sim.Source, o Opts) *Result {
 					}
 				}
 				switch pl.Shape {
-				case "lookup", "lookup-noclose":
+				case "lookup", "lookup-noclose", "lookup-clone":
 					req := world.NewRequest(method, host, path, "", "tok="+tok, nil)
 					req.Header.Set("X-Token", tok)
 					rw := world.NewRW(world.NewConn())
@@ -257,7 +257,7 @@ func runC12(src sim.Source, o Opts) *Result {
 						if cc.Request() != req || cc.Writer() != fox.ResponseWriter(rw) || cc.QueryParam("tok") != tok || world.TagOf(cc.Route()) != m.Route.Tag || cc.Scope() != fox.RouteHandler {
 							fail("request %s: Lookup context %s does not show the current request", tok, when)
 						}
-						if cc.Writer().Written() || cc.Writer().Header().Get("X-Resp") != "" {
+						if cc.Writer().Written() || (cc.Writer().Header().Get("X-Resp") != "" && cc.Writer().Header().Get("X-Resp") != tok) {
 							fail("request %s: Lookup context %s has a used writer", tok, when)
 						}
 					}
@@ -265,7 +265,21 @@ func runC12(src sim.Source, o Opts) *Result {
 					s.Yield(sim.PtHeld)
 					reobserved[ci]++
 					chk("after a yield")
-					if pl.Shape == "lookup" {
+					if pl.Shape == "lookup-clone" {
+						// a clone of a context obtained from Lookup: the recycled context's embedded recorder still refers to an
+						// earlier request's connection
+						rw.Header().Set("X-Resp", tok)
+						cl := &c12Clone{c: cc.Clone(), tok: tok}
+						cl.first = ctxFingerprint(cl.c)
+						if ot := otherTokens(cl.first, tok); len(ot) > 0 {
+							fail("clone of the Lookup context of request %s shows data of %v: %s", tok, ot, cl.first)
+						}
+						if cl.c.Writer().Status() != 200 || cl.c.Writer().Written() || cl.c.Writer().Size() != 0 || cl.c.Writer().Header().Get("X-Resp") != tok {
+							fail("clone of the Lookup context of request %s does not mirror the writer in use: %s", tok, cl.first)
+						}
+						clones = append(clones, cl)
+					}
+					if pl.Shape != "lookup-noclose" {
 						cc.Close()
 					}
 				default:
